@@ -204,9 +204,33 @@ Proof.
 Qed.
 
 Theorem replace_complete fixed p a lo hi nodes t c :
+  valid_edit t (EReplace p a lo hi nodes) ->
   cut_by p a lo hi c = false -> exists c', fwd_edit fixed (EReplace p a lo hi nodes) t c = Ok c'.
-Proof. intros NC. exact (replace_complete_aux p a lo hi nodes c NC). Qed.
+Proof.
+  intros VE NC. unfold valid_edit in VE. cbn in VE.
+  destruct (inb_block_inv _ _ _ _ _ VE) as [n [Gp [Hlo Hhi]]].
+  exact (replace_complete_aux p a lo hi nodes n Hlo Hhi c NC).
+Qed.
 
 Theorem delete_complete fixed p a lo hi pl t c :
+  valid_edit t (EDelete p a lo hi pl) ->
   cut_by p a lo hi c = false -> exists c', fwd_edit fixed (EDelete p a lo hi pl) t c = Ok c'.
-Proof. intros NC. exact (replace_complete_aux p a lo hi [] c NC). Qed.
+Proof.
+  intros VE NC. unfold valid_edit in VE. cbn in VE.
+  destruct (inb_block_inv _ _ _ _ _ VE) as [n [Gp [Hlo Hhi]]].
+  exact (replace_complete_aux p a lo hi [] n Hlo Hhi c NC).
+Qed.
+
+Example replace_sound_example :
+  let t := T 0 [T 1 [] []; T 2 [T 3 [] []] []] [] in
+  let e := EReplace [] Body 0 1 [T 7 [] []; T 8 [] []] in let c := CNode [(Body, 1); (Body, 0)] in
+  valid_edit t e /\ valid_cursor t c /\
+  exists t' c', apply_edit e t = Some t' /\ fwd_edit false e t c = Ok c'.
+Proof. vm_compute. repeat split; eauto. Qed.
+
+Example delete_sound_example :
+  let t := T 0 [T 1 [] []; T 2 [T 3 [] []] []] [] in
+  let e := EDelete [(Body, 1)] Body 0 1 9 in let c := CBlock [] Body 0 2 in
+  valid_edit t e /\ valid_cursor t c /\
+  exists t' c', apply_edit e t = Some t' /\ fwd_edit false e t c = Ok c'.
+Proof. vm_compute. repeat split; eauto. Qed.
